@@ -131,4 +131,11 @@ var propMeta = map[string]*PropMeta{
 		Assumptions: commonAssumptions,
 		Probes: []string{"probe.cq-fault-free", "probe.cq-fault.noregister", "probe.cq-fault.err-before", "probe.cq-fault.err-after-fields", "probe.cq-fault.err-mid", "probe.cq-fault.retriable", "probe.cq-fault.hang", "probe.cq-fault.slow-late", "probe.dq-expired", "probe.dq-expired-mid-scan", "probe.http.200", "probe.http.500"},
 	},
+	"C19": {
+		Level: "fault_enumeration", QuickSecs: 40, ThoroughSecs: 300, Recycle: 40,
+		Rule: "finite lattice, enumerated: the seed selects one of 80 configuration cells {OAuth configured / not} x {password configured / not} x GitHub stub behaviour {member, not member, HTTP 500, unreachable} x clock position {+10 min, +59 min, +61 min, +2 h, +5 h after the session was issued with its 1 h lifetime}; inside a cell the executor issues every credential {none, wrong static token, right static token, cookie signed with other keys, tampered cookie, well-signed session cookie} x every data endpoint {/run, /async, /immediate, /metrics, /cached/<permalink>} through the real router, and every RPC credential {none, wrong, right password} x {query, follow, remote-query-handler registration} through the real rpc client/server over in-memory pipes (the registration case is judged by whether the rogue handler receives the text of the leader's next query). Oracle = the credential predicate of the statement evaluated at the simulated instant. A batch covers all 80 cells many times (exhaustive over the lattice). Non-trivial = a request was judged.",
+		Real:  []string{"web.Configure router, authenticate(), securecookie, query cache", "rpc client + rpcserver + gRPC over net.Pipe: query, follow, remoteQuery streams", "zenodb.DB standalone and passthrough leader"}, Stub: []string{"GitHub API (hook H6 transport)", "clock: testing/synctest"},
+		Assumptions: commonAssumptions,
+		Probes: []string{"probe.web.session-cookie", "probe.web.right-token", "probe.rpc.query.none", "probe.rpc.follow.wrong", "probe.rpc.remotequery.none"},
+	},
 }
